@@ -84,6 +84,32 @@ fn exercise(ctx: &mut Ctx, b: &Board, case: &dyn Fn() -> Value) -> Result<(), Vi
                 let _ = s1.status();
             }
         }
+        // and a few narrow lines further down (six plies): castling first, then captures made by a
+        // king, otherwise a move picked by a fingerprint - what goes wrong with an accepted
+        // position may need a few moves to surface
+        if valid {
+            for k in 0..3u64 {
+                let mut cur = *b;
+                for ply in 0..6u64 {
+                    let ms: Vec<chess::ChessMove> = MoveGen::new_legal(&cur).collect();
+                    if ms.is_empty() {
+                        break;
+                    }
+                    let is_king = |m: &chess::ChessMove| cur.piece_on(m.get_source()) == Some(chess::Piece::King);
+                    let castle = ms.iter().find(|m| is_king(m) && (m.get_source().get_file().to_index() as i32 - m.get_dest().get_file().to_index() as i32).abs() == 2);
+                    let king_takes = ms.iter().find(|m| is_king(m) && cur.piece_on(m.get_dest()).is_some());
+                    let pick = match (castle, king_takes) {
+                        (Some(m), _) if k == 0 || ply > 0 => *m,
+                        (_, Some(m)) => *m,
+                        _ => ms[(fp(&(k, ply, cur.get_hash())) % ms.len() as u64) as usize],
+                    };
+                    cur = cur.make_move_new(pick);
+                    let _ = cur.status();
+                    let _ = cur.to_string();
+                    deeper += 1;
+                }
+            }
+        }
         (n, moves.len(), deeper)
     });
     match r {
